@@ -6,6 +6,7 @@
 //! failure is listed in <out-dir>/translate_report.json).
 mod ir;
 mod maccmd;
+mod maccmd_sets;
 mod phyio;
 mod statics;
 mod tables;
